@@ -25,16 +25,37 @@ type Rec struct {
 }
 
 var (
-	once    sync.Once
-	current *Rec
-	curMu   sync.Mutex
+	once       sync.Once
+	current    *Rec
+	curMu      sync.Mutex
+	byProvider = map[*interpreter.ECALRuntimeProvider]*Rec{}
+	closedRing []*interpreter.ECALRuntimeProvider
 )
+
+func bind(erp *interpreter.ECALRuntimeProvider, r *Rec) {
+	curMu.Lock()
+	defer curMu.Unlock()
+	byProvider[erp] = r
+	if r == nil { // remember the last finished providers only
+		closedRing = append(closedRing, erp)
+		if len(closedRing) > 2048 {
+			delete(byProvider, closedRing[0])
+			closedRing = closedRing[1:]
+		}
+	}
+}
 
 type recFunc struct{}
 
 func (recFunc) Run(instanceID string, vs parser.Scope, is map[string]interface{}, tid uint64, args []interface{}) (interface{}, error) {
 	curMu.Lock()
 	r := current
+	// route by runtime provider: a thread leaked by an earlier case (e.g. one killed late by the debugger) must not write into a later case's record
+	if erp, ok := is["erp"].(*interpreter.ECALRuntimeProvider); ok {
+		if pr, known := byProvider[erp]; known {
+			r = pr // nil once the provider's run is over
+		}
+	}
 	curMu.Unlock()
 	if r != nil {
 		var v interface{}
@@ -63,6 +84,9 @@ func StartRecording() *Rec {
 	curMu.Unlock()
 	return r
 }
+
+// Close stops recording for a provider whose Run never returns.
+func Close(erp *interpreter.ECALRuntimeProvider) { bind(erp, nil) }
 
 // StopRecording removes the recorder.
 func StopRecording() {
@@ -156,6 +180,8 @@ func Run(src string, o Options) *Result {
 		erp.Processor = engine.NewProcessor(o.Workers)
 		erp.Processor.SetFailOnFirstErrorInTriggerSequence(true)
 	}
+	bind(erp, rec)
+	defer bind(erp, nil)
 	defer func() {
 		if !erp.Processor.Stopped() {
 			erp.Processor.Finish()
